@@ -1,12 +1,36 @@
 package sym
 
 import (
+	"strings"
 	"regexp"
 )
 
 var reDenom = regexp.MustCompile(`^[a-zA-Z][a-zA-Z0-9/:._-]{2,127}$`)
 
 func registerMisc(p *Program) {
+	// locks and Once: executions are single-threaded
+	nop := func(x *Exec, c *CallCtx) Value { return nil }
+	for _, m := range []string{"(*sync.Mutex).Lock", "(*sync.Mutex).Unlock", "(*sync.RWMutex).Lock", "(*sync.RWMutex).Unlock",
+		"(*sync.RWMutex).RLock", "(*sync.RWMutex).RUnlock"} {
+		p.Intr[m] = nop
+	}
+	p.Intr["(*sync.Mutex).TryLock"] = func(x *Exec, c *CallCtx) Value { return BoolV{x.B.True} }
+	// constructors of the real servers, so that harnesses can call the real NewServer and keep
+	// whatever else it puts into the server object: the module database and the generated
+	// state store become the table models, the ID hasher an uninterpreted function
+	p.Intr[RegenPrefix+"types/v2/ormstore.NewStoreKeyDB"] = func(x *Exec, c *CallCtx) Value {
+		return TupleV{ModelV{&NopModel{name: "ModuleDB"}}, IfaceV{}}
+	}
+	p.Intr[RegenPrefix+"x/data/v3/server/hasher.NewHasher"] = func(x *Exec, c *CallCtx) Value {
+		return TupleV{ModelV{&RecorderModel{name: "hasher", env: x.Env, uf: true}}, IfaceV{}}
+	}
+	for path := range p.ByPath {
+		if strings.HasPrefix(path, RegenPrefix+"api/") {
+			p.Intr[path+".NewStateStore"] = func(x *Exec, c *CallCtx) Value {
+				return TupleV{ModelV{&StoreModel{env: x.Env}}, IfaceV{}}
+			}
+		}
+	}
 	p.Intr["net/url.ParseRequestURI"] = func(x *Exec, c *CallCtx) Value {
 		s := c.Args[0].(StrV)
 		t := x.strAtomTerm(s)
